@@ -2,6 +2,7 @@
 mod builtins;
 mod c11;
 mod c12;
+mod c16;
 mod c17;
 mod check;
 mod runner;
@@ -163,6 +164,7 @@ fn get_check(id: &str) -> Option<&'static dyn check::Check> {
     match id {
         "C11" => Some(&c11::C11),
         "C12" => Some(&c12::C12),
+        "C16" => Some(&c16::C16),
         "C17" => Some(&c17::C17),
         _ => None,
     }
